@@ -309,6 +309,7 @@ class Store:
         self.violations = []      # write-once monitor findings: (step, verb, path, why)
         self.mode = 'pre'         # nodes created while mode == 'pre' are pre-existing
         self.time = 0
+        self.scheduler = None     # set by the race harness: decides who performs the next storage step
 
     # -- direct manipulation by harnesses
     def put_dir(self, path):
@@ -336,6 +337,8 @@ class Store:
 
     # -- steps
     def step(self, verb, path, mutating, payload=None):
+        if self.scheduler is not None:
+            self.scheduler.before_step(self.actor, verb, path)
         idx = self.nsteps
         self.nsteps += 1
         act = self.policy.on_step(self.ex, self, idx, self.actor, verb, path, mutating)
